@@ -105,6 +105,12 @@ def explicit_cases():
         {"pat": "1101", "p": [2, 3, 1, 0, 0, 4], "kind": "bytes", "deliv": "gen"},
         {"pat": "0110", "p": [1, 4, 1, 3, 1, 0], "kind": "obj", "deliv": "list", "pre": {"pat": "0011", "how": "list"}},
         {"pat": "110", "p": [1, 2, 1, 0, 0, 0], "kind": "obj", "deliv": "list", "pre": {"pat": "110", "how": ["gen", 1]}},
+        {"pat": "0110111", "p": [1, 3, 1, 0, 0, 0], "kind": "char", "deliv": "list", "skip": "101"},
+        {"pat": "110011", "p": [2, 4, 0, 0, 0, 0], "kind": "obj", "deliv": "gen", "skip": "1"},
+        {"pat": "1" * 33000 + "011", "p": [1, 40000, 0, 0, 0, 0], "kind": "obj", "deliv": "list"},
+        {"pat": "0" + "1" * 70001 + "0" + "1" * 5, "p": [2, 70000, 0, 0, 0, 0], "kind": "bytes", "deliv": "gen"},
+        {"pat": ("1" * 100 + "0") * 3 + "1" * 30, "p": [1, 200, 0, 0, 0, 0], "kind": "char", "deliv": "list"},
+        {"pat": ("1" * 40 + "00") * 4, "p": [3, 130, 1, 0, 0, 0], "kind": "obj", "deliv": "cb"},
     ]
 
 
